@@ -98,6 +98,8 @@ pub fn random_cfg(rng: &mut Rng, n_keys: u16, n_meta: u8, dup: Option<bool>) -> 
         bloom_flip: false,
         max_blob_size: None,
         deferred_ms: None,
+        corrupted_dir: None,
+        dump_permits: if rng.chance(1, 4) { Some(rng.range(2, 9) as u8) } else { None },
     }
 }
 
